@@ -47,6 +47,13 @@ func replayFile(path string) {
 				universe = append(universe, e.From)
 			}
 		}
+		forcedMapKind = sc.Map
+		if len(sc.MapTable) > 0 {
+			forcedMapTable = sc.MapTable
+		}
+		if forcedMapKind == "" {
+			forcedMapKind = "identity"
+		}
 		w, err := newRBCWorld(newPRNG(1), sc.ID, sc.Members, sc.Honest, universe, sc.Mode, sc.AcceptEmpty)
 		if err != nil {
 			emit(&jScenario{Kind: "rbc", ID: sc.ID, Err: err.Error()})
